@@ -46,7 +46,34 @@ def arrays(ids, n_atoms):
     time = np.array(ids, dtype=np.float32)
     lengths = np.array([[i + 2.0] * 3 for i in ids], dtype=np.float32).reshape(T, 3)
     angles = np.full((T, 3), 90.0, dtype=np.float32)
+    for k, i in enumerate(ids):
+        if is_sheared(i):
+            angles[k] = SHEAR_ANGLES
     return xyz, time, lengths, angles
+
+
+# per-frame cell KIND: with case["shear"] = "odd" / "even" the frames whose id is odd / even have a triclinic cell, the
+# others an orthogonal one, so that the kind of cell changes inside one write call and between calls
+SHEAR = None
+SHEAR_ANGLES = (85.0, 80.0, 75.0)
+
+
+def is_sheared(i):
+    return (SHEAR == "odd" and i % 2 == 1) or (SHEAR == "even" and i % 2 == 0)
+
+
+def boxes(L, ang):
+    """box vectors of each frame from lengths and angles"""
+    from mdtraj.utils.unitcell import lengths_and_angles_to_box_vectors
+    L, ang = np.atleast_2d(L), np.atleast_2d(ang)
+    out = np.zeros((len(L), 3, 3), dtype=np.float32)
+    for k in range(len(L)):
+        if np.allclose(ang[k], 90.0):
+            out[k] = np.diag(L[k])
+        else:
+            v = lengths_and_angles_to_box_vectors(*[float(x) for x in L[k]], *[float(x) for x in ang[k]])
+            out[k] = np.array(v, dtype=np.float32)
+    return out
 
 
 def do_write(f, fmt, ids, cell, time, n_atoms, squeeze=False):
@@ -56,14 +83,10 @@ def do_write(f, fmt, ids, cell, time, n_atoms, squeeze=False):
     if squeeze and len(ids) == 1 and fmt in SQUEEZABLE:
         xyz, t, L, ang = xyz[0], t[0], L[0], ang[0]
         if fmt in ("xtc", "trr"):
-            f.write(xyz=xyz, time=t if time else None, box=np.diag(L) if cell else None)
+            f.write(xyz=xyz, time=t if time else None, box=boxes(L, ang)[0] if cell else None)
             return
     if fmt in ("xtc", "trr"):
-        box = None
-        if cell:
-            box = np.zeros((len(ids), 3, 3), dtype=np.float32)
-            for k in range(len(ids)):
-                box[k] = np.diag(L[k])
+        box = boxes(L, ang) if cell else None
         f.write(xyz=xyz, time=t if time else None, box=box)
     elif fmt == "dcd":
         f.write(xyz=xyz * A, cell_lengths=L * A if cell else None, cell_angles=ang if cell else None)
@@ -83,11 +106,7 @@ def do_write(f, fmt, ids, cell, time, n_atoms, squeeze=False):
     elif fmt == "xyz":
         f.write(xyz=xyz * A)
     elif fmt == "gro":
-        vec = None
-        if cell:
-            vec = np.zeros((len(ids), 3, 3), dtype=np.float32)
-            for k in range(len(ids)):
-                vec[k] = np.diag(L[k])
+        vec = boxes(L, ang) if cell else None
         f.write(xyz, make_top(n_atoms), t if time else None, vec)
     elif fmt == "pdb":
         top = make_top(n_atoms)
@@ -221,6 +240,8 @@ def run_reporter_ops(case, path):
 
 
 def run_ops(case, path):
+    global SHEAR
+    SHEAR = case.get("shear")
     if case.get("via") == "reporter":
         return run_reporter_ops(case, path)
     fmt = case["fmt"]
@@ -261,7 +282,9 @@ def run_ops(case, path):
     return out
 
 
-def observe(path, fmt):
+def observe(path, fmt, shear=None):
+    global SHEAR
+    SHEAR = shear
     try:
         if not os.path.exists(path):
             return {"load_err": "NoFile"}
@@ -286,10 +309,16 @@ def observe(path, fmt):
         cell = None
         if fmt != "pdb" and t.unitcell_lengths is not None:
             cell = []
-            for x in t.unitcell_lengths:
+            for x, an in zip(t.unitcell_lengths, t.unitcell_angles):
                 v = float(x[0]) - 2.0
                 r = int(round(v)) if np.isfinite(v) and abs(v) < 1e6 else -1
-                cell.append(r if (r >= 0 and abs(v - r) < 0.01) else -1)
+                ok = r >= 0 and abs(v - r) < 0.01
+                if ok and shear:
+                    # lengths AND angles of the frame handed in: all three lengths, the angles of its kind of cell
+                    want = SHEAR_ANGLES if is_sheared(r) else (90.0, 90.0, 90.0)
+                    ok = all(abs(float(x[j]) - (r + 2.0)) < 0.01 for j in range(3)) and \
+                        all(abs(float(an[j]) - want[j]) < 0.05 for j in range(3))
+                cell.append(r if ok else -1)
         return {"frames": ids, "time": tm, "cell": cell, "n_atoms": int(t.n_atoms)}
     except BaseException as e:  # noqa: BLE001
         if isinstance(e, (KeyboardInterrupt, SystemExit)):
@@ -333,7 +362,7 @@ def main():
                 ops = [{"child_rc": child_rc[i]}]
             else:
                 ops = run_ops(case, path)
-            res.append({"ops": ops, "load": observe(path, case["fmt"]), "crashed": crashed})
+            res.append({"ops": ops, "load": observe(path, case["fmt"], case.get("shear")), "crashed": crashed})
             if os.path.isdir(path):
                 shutil.rmtree(path, ignore_errors=True)
             elif os.path.exists(path):
